@@ -34,6 +34,46 @@ def stateform(node, emb, is_set, leafidx):
     return {'f': 'node', 'kids': kids, 'seps': seps, 'fb': leafidx(st[1])}
 
 
+class _I(int):
+    pass
+
+
+class _F(float):
+    pass
+
+
+class _B(bytes):
+    pass
+
+
+def _sub(x, code):
+    """the same number / string as an instance of a subclass (bool where the number is 0 or 1)"""
+    if code in 'ILUQ':
+        return bool(x) if x in (0, 1) else _I(x)
+    if code == 'F':
+        return _F(x)
+    if code in 'fs':
+        return _B(x)
+    return x
+
+
+class SubEmb:
+    """an embedding that offers keys and values as instances of subclasses of int / float / bytes: the native
+    families must store (and pickle) plain numbers and strings whatever they were given"""
+
+    def __init__(self, emb):
+        self.e = emb
+
+    def key(self, r):
+        return _sub(self.e.key(r), self.e.fam[0])
+
+    def val(self, r):
+        return _sub(self.e.val(r), self.e.fam[1])
+
+    def __getattr__(self, n):
+        return getattr(self.e, n)
+
+
 def main():
     job = json.load(open(sys.argv[1]))
     from harness import embed, proj as P, api, graph
@@ -42,6 +82,8 @@ def main():
     g = graph.Graph(payloads)
     fam, is_set = job['fam'], job['is_set']
     emb = embed.Embedding(fam, job.get('emb', 'mid'))
+    if job.get('argtype') == 'sub':
+        emb = SubEmb(emb)
     cC = embed.classes(fam, 'c')
     cP = embed.classes(fam, 'py')
     old = embed.set_sizes([cC[0], cC[2], cP[0], cP[2]], job['leaf'], job['internal'])
@@ -77,6 +119,14 @@ def main():
             if P.proj(t, emb, is_set) != tr['to']:
                 mism.append(dict(where, kind='structure', model=tr['to'], real=P.proj(t, emb, is_set)))
                 continue
+            # native families hold plain numbers / strings (exact types), whatever was offered
+            odd = []
+            for leaf in P.collect_leaves(t):
+                ks_, vs_ = P._leaf_items(leaf, is_set)
+                odd += [repr(x) for x in ks_ if fam[0] != 'O' and type(x) not in (int, float, bytes)]
+                odd += [repr(x) for x in (vs_ or []) if fam[1] != 'O' and type(x) not in (int, float, bytes)]
+            if odd:
+                mism.append(dict(where, kind='stored-type', real=odd[:6]))
             gs = stateform(t, emb, is_set, leafidxer(t))
             if gs != tr['gs']:
                 mism.append(dict(where, kind='getstate-form', model=tr['gs'], real=gs))
